@@ -77,10 +77,14 @@ Definition c_ulaw2i (c : Z) : option Z := option_map (fun d => wrap 32 (d * 6553
 Definition c_alaw2i (c : Z) : option Z := option_map (fun d => wrap 32 (d * 65536)) (lookup alaw_decode_tab c).
 
 (* f2ulaw / d2ulaw with the already rounded product r = lrint (normfact * x) and the sign test on x *)
+Definition clamp_idx (mx r : Z) : Z := if (r <? 0) || (mx <? r) then mx else r.
+(* the negation is done in int: - INT_MIN wraps to INT_MIN *)
 Definition c_r2ulaw (nonneg : bool) (r : Z) : option Z :=
-  if nonneg then lookup ulaw_encode_tab r else option_map land7f (lookup ulaw_encode_tab (- r)).
+  if nonneg then lookup ulaw_encode_tab (clamp_idx 8192 r)
+  else option_map land7f (lookup ulaw_encode_tab (clamp_idx 8192 (wrap 32 (- r)))).
 Definition c_r2alaw (nonneg : bool) (r : Z) : option Z :=
-  if nonneg then lookup alaw_encode_tab r else option_map land7f (lookup alaw_encode_tab (- r)).
+  if nonneg then lookup alaw_encode_tab (clamp_idx 2048 r)
+  else option_map land7f (lookup alaw_encode_tab (clamp_idx 2048 (wrap 32 (- r)))).
 
 (** ** Boolean checkers evaluated over the complete domains *)
 
